@@ -696,17 +696,19 @@ class Explorer(object):
 
 # ---- running a per-model worker over the catalogue in parallel -----------------------------------
 def run_catalogue(ctx, worker, tier=None, models=None):
-    """worker(args) with args=(model_name, tier, seed) is a module-level function returning
-    dict(sub=Sub.dump(), states=, transitions=, executions=, extra={...}). Returns aggregate."""
+    """worker(args) with args=(model_name, tier, seed, fixture) is a module-level function returning
+    dict(sub=Sub.dump(), states=, transitions=, executions=). One task per (model, fixture), largest
+    models first. Returns the aggregate."""
     from vf.models import catalog
     names = models or [m.name for m in catalog.catalogue(tier or ctx.tier)]
-    results = ctx.pmap(worker, [(n, ctx.tier, ctx.seed) for n in names])
+    items = [(n, ctx.tier, ctx.seed, f) for n in names for f in ('populated', 'empty')]
+    items.sort(key=lambda it: (it[3] != 'populated', -len(it[0])))
+    results = ctx.pmap(worker, items)
     agg = dict(states=0, transitions=0, executions=0, per_model={})
-    for name, r in zip(names, results):
+    for it, r in zip(items, results):
         core.absorb(ctx, r['sub'])
         for k in ('states', 'transitions', 'executions'): agg[k] += r[k]
-        agg['per_model'][name] = dict((k, r[k]) for k in ('states', 'transitions', 'executions'))
-        for k, v in r.get('extra', {}).items(): agg['per_model'][name][k] = v
+        agg['per_model'][it[0] + '/' + it[3]] = dict((k, r[k]) for k in ('states', 'transitions', 'executions'))
     return agg
 
 def seeded_order(seed):
